@@ -30,6 +30,15 @@ TDIGEST_STAT_JOB = job("tdigest_stat",
     nontrivial=stat_nontrivial,
 )
 
+# directed segments: the centroid bound under pressure - a compress point after every single update (k 10, 50, 200),
+# chains of several hundred merges of 1..8-value sketches, thorough: streams of 1.2 * 10^6 values (k 100, 200)
+TDIGEST_BOUND_JOB = job("tdigest_bound",
+    harness="tdigest_rec", inc=["common", "tdigest"], spec="TraceTDigest", owners=["C17"], serde=False,
+    files={Q: 5, T: 7}, heap="6g",
+    args=lambda tier, seed, k, profile: ["--seed", seed, "--directed", k],
+    nontrivial=lambda evs: sum(1 for e in evs if "cent" in e) >= 100,
+)
+
 TDIGEST_MC = [
     dict(module="TDigest", cfg="MC_TDigest.cfg"),
     dict(module="TDigest", cfg="MC_TDigest_merge.cfg"),
@@ -42,7 +51,8 @@ TDIGEST_MC = [
       "merges, copies, images of the reference implementation incl. heavy extreme centroids, serde with twins continued in lock-step), every "
       "event validated by TLC: each compress must be a contiguous coarsening of the model's previous content, rank and quantile judged on "
       "dense grids built around every centroid boundary; a segment is non-trivial when >= 2 multi-centroid compresses were resolved and >= 1 "
-      "grid judged, a statistics file when >= 40 trials were judged; distinct = distinct segment content hash",
+      "grid judged, a statistics file when >= 40 trials were judged, a directed centroid-bound segment (compress point after every update / "
+      "merge chains of tiny sketches / 1.2e6-value streams) when >= 100 compresses were resolved; distinct = distinct segment content hash",
       ["doubles are renamed order-isomorphically (bin/vlib/munge.py); the contract uses only order/equality on values, means, ranks",
        "the projection (centroid means/weights, buffer) is read from serialize(0, with_buffer=true) + to_string(), both free of side effects",
        "accuracy envelope: normalized error err / (q(1-q)/k + 1/n) from the documented scale function (cluster size ~ q(1-q)); mean over >= 40 "
@@ -54,3 +64,4 @@ def run_c17(oc, repo, seed, tier):
     mc_all(oc, TDIGEST_MC, tier)
     core.trace_job(oc, TDIGEST_JOB, repo, seed, tier)
     core.trace_job(oc, TDIGEST_STAT_JOB, repo, seed, tier)
+    core.trace_job(oc, TDIGEST_BOUND_JOB, repo, seed, tier)
